@@ -3,12 +3,19 @@
  * data members the bodies touch under their real names (conformance-checked against soplex.h).  Enumerations
  * (VarStatus, IntParam, RealParam, OBJSENSE_*) are extracted from the tree, never re-typed. */
 #include "verif.h"
-typedef double R;
+#ifdef R_IS_UF
+#include "real_uf.h"      /* double with uninterpreted binary +,- (see header): getBoundViolation, getRowViolation */
+typedef RealUF R;
+static inline double dval(const R& r) { return r.v; }
+#else
+typedef double R;          /* CBMC's bit-precise IEEE double */
+static inline double dval(const R& r) { return r; }
+#endif
 typedef double Real;
 
 /* VectorBase<R> v(n): the real class allocates n elements.  Allocation is modelled by a caller-supplied fresh
  * scratch buffer (gp_scratch, exactly g_scratch_n elements); the constructor asserts the requested dimension. */
-extern "C" { extern R* gp_scratch; extern int g_scratch_n; extern int g_scratch_used; }
+extern "C" { extern double* gp_scratch; extern int g_scratch_n; extern int g_scratch_used; }
 #define VectorBase VectorBaseRaw
 #include "containers.h"
 #undef VectorBase
@@ -19,7 +26,7 @@ template <class T> struct VectorBase : VectorBaseRaw<T>
    {
       __CPROVER_assert(n == g_scratch_n && g_scratch_used == 0, "VectorBase(n): one scratch vector of the announced dimension");
       g_scratch_used = 1;
-      this->val = gp_scratch; this->dimen = n;
+      this->val = (T*)gp_scratch; this->dimen = n;
    }
 };
 
@@ -51,7 +58,7 @@ struct StatusArray
 
 extern "C" {
    extern int g_k; extern int g_cpa_calls, g_cpa_unscaled, g_cpa_args_ok, g_sync_calls;
-   extern R* gp_max; extern R* gp_sum; extern R* gp_a; extern R* gp_b; extern R* gp_x; extern R v_dlo, v_dup;
+   extern double* gp_max; extern double* gp_sum; extern double v_dlo, v_dup, v_x;
 }
 
 /* SPxLPBase<R>: only what the violation getters read.  lowerUnscaled(i) etc. are accessors of the LP "as the
@@ -72,26 +79,49 @@ struct LPStub
       g_cpa_calls++;
       g_cpa_unscaled = unscaled;
       g_cpa_args_ok = (primal.val == primal_expected && activity.dimen == nr);
-      R a = nondet_double();
-      __CPROVER_assume(a == a);      /* activity is not NaN (listed in "trusted") */
-      if(0 <= g_k && g_k < activity.dimen) { activity.val[g_k] = a; v_dlo = left.val[g_k] - a; v_dup = a - right.val[g_k]; }
+      double nd = nondet_double(); R a; a = nd;
+      if(0 <= g_k && g_k < activity.dimen)
+      {
+         activity.val[g_k] = a; v_dlo = dval(left.val[g_k] - a); v_dup = dval(a - right.val[g_k]);
+         /* lhs - activity and activity - rhs are not NaN (IEEE: sides not NaN, activity finite); listed in "trusted" */
+         __CPROVER_assume(v_dlo == v_dlo && v_dup == v_dup);
+      }
    }
    const R* primal_expected;
 };
 
+/* Tolerances: the two getters are the real bodies (spxdefines.cpp) over the real member names */
+struct TolStub
+{
+   Real s_floating_point_feastol, s_floating_point_opttol;
+   Real floatingPointFeastol()
+   {
+#include "floatingPointFeastol.inc"
+   }
+   Real floatingPointOpttol()
+   {
+#include "floatingPointOpttol.inc"
+   }
+};
+extern "C" { extern int g_unscaleLP_calls; }
 struct SolverStub
 {
    StatusArray rstat, cstat;
+   TolStub* tol;
+   TolStub* tolerances() const { return tol; }       /* real: const std::shared_ptr<Tolerances>& */
+   void unscaleLPandReloadBasis() { g_unscaleLP_calls++; }
    VarStatus getBasisRowStatus(int row) const { return rstat[row]; }
    VarStatus getBasisColStatus(int col) const { return cstat[col]; }
 };
 
 struct SolStub
 {
-   VectorBase<R> _primal, _slacks, _dual, _redCost;
+   VectorBase<R> _primal, _slacks, _primalRay, _dual, _redCost, _dualFarkas;
    R _objVal;
-   bool _isPrimalFeasible;
+   bool _isPrimalFeasible, _hasPrimalRay, _hasDualFarkas;
    bool isPrimalFeasible() const { return _isPrimalFeasible; }
+   bool hasPrimalRay() const { return _hasPrimalRay; }
+   bool hasDualFarkas() const { return _hasDualFarkas; }
 };
 struct SolRationalStub
 {
@@ -114,6 +144,9 @@ struct SoPlexHost : SoPlexBase<R>
    SolStub _solReal;
    SolRationalStub _solRational;
    bool _hasBasis, _hasSolReal, _hasSolRational;
+   bool _isRealLPScaled;
+   int _unscaleCalls;
+   SPxSolverBase<R>::Status _status;
 
    /* copies the rational solution into _solReal when only that one exists; the contracts speak about _solReal as
     * it is after this call (no-op stub, call recorded) */
@@ -133,6 +166,14 @@ struct SoPlexHost : SoPlexBase<R>
    bool hasBasis() const
    {
 #include "hasBasis.inc"
+   }
+   bool hasSol() const
+   {
+#include "hasSol.inc"
+   }
+   SPxSolverBase<R>::Status status() const
+   {
+#include "status.inc"
    }
    int numCols() const
    {
@@ -173,10 +214,11 @@ struct H : SoPlexHost
  *  x     : _solReal._primal (bounds, rows), _solReal._dual (duals), _solReal._redCost (reduced costs)
  *  scratch: storage handed out by `VectorBase<R> activity(numRows())`
  *  st_solver / st_stored: basis statuses as answered by _solver / as stored in _basisStatus{Rows,Cols} */
-extern "C" int w_viol(R* a, R* b, R* x, R* scratch, const int* st_solver, const int* st_stored, int n,
+extern "C" int w_viol(double* a_, double* b_, double* x_, double* scratch, const int* st_solver, const int* st_stored, int n,
                       int hasSolReal, int realFeas, int hasSolRational, int ratFeas,
-                      int hasBasis, int isRealLPLoaded, int objsense, R* maxviol, R* sumviol)
+                      int hasBasis, int isRealLPLoaded, int objsense, double* maxviol, double* sumviol)
 {
+   R* a = (R*)a_; R* b = (R*)b_; R* x = (R*)x_;
    VIN("n", n); VIN("objsense", objsense); VIN("isRealLPLoaded", isRealLPLoaded);
    LPStub lp; SettingsStub set; H h;
    lp.nc = n; lp.nr = n;
@@ -193,13 +235,120 @@ extern "C" int w_viol(R* a, R* b, R* x, R* scratch, const int* st_solver, const 
    h._solReal._redCost.val = x; h._solReal._redCost.dimen = n;
    h._solReal._isPrimalFeasible = realFeas != 0; h._solRational._isPrimalFeasible = ratFeas != 0;
    h._hasSolReal = hasSolReal != 0; h._hasSolRational = hasSolRational != 0; h._hasBasis = hasBasis != 0;
-   h.maxviol_ = maxviol; h.sumviol_ = sumviol;
-   gp_max = maxviol; gp_sum = sumviol; gp_a = a; gp_b = b; gp_x = x; gp_scratch = scratch; g_scratch_n = n; g_scratch_used = 0;
+   h.maxviol_ = (R*)maxviol; h.sumviol_ = (R*)sumviol;
+   gp_max = maxviol; gp_sum = sumviol; gp_scratch = scratch; g_scratch_n = n; g_scratch_used = 0;
    g_cpa_calls = 0; g_sync_calls = 0;
+   if(0 <= g_k && g_k < n) v_x = dval(x[g_k]);
 #ifdef KIND_BOUND
    /* ghost copies of the two differences the contract speaks about (bit-exact; see contract.c) */
-   if(0 <= g_k && g_k < n) { v_dlo = a[g_k] - x[g_k]; v_dup = x[g_k] - b[g_k]; }
+   if(0 <= g_k && g_k < n) { v_dlo = dval(a[g_k] - x[g_k]); v_dup = dval(x[g_k] - b[g_k]); }
 #endif
    return h.body() ? 1 : 0;
+}
+#endif
+
+#ifdef INST_VERIFY
+/* The four getters are replaced by their contracts (contract.c: c_get*Violation, the out-parameter part of the
+ * contract proved on the real bodies in the INST_VIOL instances, plus ghost copies of what they returned). */
+extern "C" {
+   int c_getBoundViolation(double* maxviol, double* sumviol);
+   int c_getRowViolation(double* maxviol, double* sumviol);
+   int c_getDualViolation(double* maxviol, double* sumviol);
+   int c_getRedCostViolation(double* maxviol, double* sumviol);
+   extern int g_resolve_calls, g_resolve_arg, g_unscale_before_resolve, g_scaledflag_at_resolve;
+}
+struct H : SoPlexHost
+{
+   bool getBoundViolation(R& maxviol, R& sumviol) { return c_getBoundViolation(&maxviol, &sumviol) != 0; }
+   bool getRowViolation(R& maxviol, R& sumviol) { return c_getRowViolation(&maxviol, &sumviol) != 0; }
+   bool getDualViolation(R& maxviol, R& sumviol) { return c_getDualViolation(&maxviol, &sumviol) != 0; }
+   bool getRedCostViolation(R& maxviol, R& sumviol) { return c_getRedCostViolation(&maxviol, &sumviol) != 0; }
+   /* the re-solve: recorded, not executed */
+   void _preprocessAndSolveReal(bool applyPreprocessing)
+   {
+      g_resolve_calls++; g_resolve_arg = applyPreprocessing;
+      g_unscale_before_resolve = g_unscaleLP_calls; g_scaledflag_at_resolve = _isRealLPScaled;
+   }
+   void body()
+   {
+#include "_verifySolutionReal.inc"
+   }
+};
+extern "C" void w_verify(double feastol, double opttol, int* isRealLPScaled, int* unscaleCalls)
+{
+   VIN("feastol", feastol); VIN("opttol", opttol); VIN("isRealLPScaled", *isRealLPScaled);
+   TolStub tol; H h;
+   tol.s_floating_point_feastol = feastol; tol.s_floating_point_opttol = opttol;
+   h._solver.tol = &tol;
+   h._isRealLPScaled = *isRealLPScaled != 0; h._unscaleCalls = *unscaleCalls; h._hasSolReal = true;
+   g_resolve_calls = 0; g_unscaleLP_calls = 0;
+   h.body();
+   *isRealLPScaled = h._isRealLPScaled; *unscaleCalls = h._unscaleCalls;
+}
+#endif
+
+#ifdef INST_UNSCALE
+/* SPxScaler<R>: ghost-recording stubs.  Each records how often it ran, whether it was handed the LP of the call and
+ * which member of _solReal it was given (1 primal, 2 slacks, 3 dual, 4 redCost, 5 primalRay, 6 dualFarkas). */
+extern "C" { extern int g_cnt[7]; extern int g_lp_ok[7]; extern int g_vec[7]; extern const void* gp_lp; extern const void* gp_sol[7]; }
+struct ScalerStub
+{
+   void rec(int which, const LPStub& lp, VectorBase<R>& v) const
+   {
+      g_cnt[which]++; g_lp_ok[which] = ((const void*)&lp == gp_lp);
+      g_vec[which] = (const void*)&v == gp_sol[1] ? 1 : (const void*)&v == gp_sol[2] ? 2 : (const void*)&v == gp_sol[3] ? 3 :
+                     (const void*)&v == gp_sol[4] ? 4 : (const void*)&v == gp_sol[5] ? 5 : (const void*)&v == gp_sol[6] ? 6 : 0;
+   }
+   void unscalePrimal(const LPStub& lp, VectorBase<R>& x) const { rec(1, lp, x); }
+   void unscaleSlacks(const LPStub& lp, VectorBase<R>& s) const { rec(2, lp, s); }
+   void unscaleDual(const LPStub& lp, VectorBase<R>& pi) const { rec(3, lp, pi); }
+   void unscaleRedCost(const LPStub& lp, VectorBase<R>& r) const { rec(4, lp, r); }
+   void unscalePrimalray(const LPStub& lp, VectorBase<R>& ray) const { rec(5, lp, ray); }
+   void unscaleDualray(const LPStub& lp, VectorBase<R>& ray) const { rec(6, lp, ray); }
+};
+struct H : SoPlexHost
+{
+   ScalerStub* _scaler;
+   LPStub* LP_; bool persistent;
+   void body()
+   {
+      LPStub& LP = *LP_;
+#include "_unscaleSolutionReal.inc"
+   }
+};
+extern "C" void w_unscale(int hasPrimalRay, int hasDualFarkas, int persistent)
+{
+   LPStub lp, other; ScalerStub sc; H h;
+   h._scaler = &sc; h._realLP = &other; h.LP_ = &lp; h.persistent = persistent != 0;
+   h._solReal._hasPrimalRay = hasPrimalRay != 0; h._solReal._hasDualFarkas = hasDualFarkas != 0;
+   gp_lp = &lp;
+   gp_sol[1] = &h._solReal._primal; gp_sol[2] = &h._solReal._slacks; gp_sol[3] = &h._solReal._dual;
+   gp_sol[4] = &h._solReal._redCost; gp_sol[5] = &h._solReal._primalRay; gp_sol[6] = &h._solReal._dualFarkas;
+#define Z(k) g_cnt[k] = 0; g_lp_ok[k] = 0; g_vec[k] = 0;
+   Z(1) Z(2) Z(3) Z(4) Z(5) Z(6)
+#undef Z
+   h.body();
+}
+#endif
+
+#ifdef INST_OBJVAL
+struct H : SoPlexHost
+{
+   R body()
+   {
+#include "objValueReal.inc"
+   }
+};
+extern "C" double w_objval(int status, double infty, int objsense, int hasSolReal, int hasSolRational, double objVal)
+{
+   SettingsStub set; H h;
+   set._intParamValues[SoPlexBase<R>::OBJSENSE] = objsense;
+   set._realParamValues[SoPlexBase<R>::INFTY] = infty;
+   h._currentSettings = &set;
+   h._status = (SPxSolverBase<R>::Status)status;
+   h._hasSolReal = hasSolReal != 0; h._hasSolRational = hasSolRational != 0;
+   h._solReal._objVal = objVal;
+   g_sync_calls = 0;
+   return h.body();
 }
 #endif
